@@ -1,4 +1,6 @@
 """C09 - a failed pooled connection is discarded and pool capacity is conserved."""
+import itertools
+
 from hypothesis import strategies as st
 
 from props import c01
@@ -395,7 +397,81 @@ def check_reentrant(case, interruption=None):
     return ran, ["reentrant", case["when"], "inner-fault" if fired else "no-fault", "max=%s" % case["max_pool_size"]] + ([] if ran else ["nested-call-did-not-happen"])
 
 
+# ---- several idle connections of different ages -----------------------------------------------------------------------
+
+def several_idle_cases(tier, seed):
+    """a burst left two to four connections in the pool, released at different moments; calls follow after gaps: at every checkout
+    the connections that have idled longer than pool_idle_timeout are closed, a younger one is reused"""
+    gaps = (0, 10, 35, 61, 90)
+    for n in (2, 3, 4):
+        for rel in itertools.product((0, 25, 40), repeat=n - 1):          # time between one release and the next
+            for g in gaps:
+                for follow in ((0,), (30, 30), (61,)):
+                    yield {"n": n, "release_gaps": list(rel), "gap": g, "follow": list(follow), "idle": 60, "max_pool_size": (None, n, n + 1)[(sum(rel) + g) % 3]}
+
+
+def check_several_idle(case):
+    from vlib.harness import Env, virtual_time
+    env = Env()
+    net = env.net
+    faultlab.preload(env.server, b"")
+    idle = case["idle"]
+    desc = "%d connections released %r s apart (pool_idle_timeout %d, max_pool_size %r), first call %r s after the last release, then calls after %r s" % (
+        case["n"], case["release_gaps"], idle, case["max_pool_size"], case["gap"], case["follow"])
+    with virtual_time(env.clock):
+        c = env.client("pooled", max_pool_size=case["max_pool_size"], pool_idle_timeout=idle, default_noreply=False)
+        pool = c.client_pool
+        held = [pool.get() for _ in range(case["n"])]
+        for cl in held:
+            if env.call(cl.get, "t") != ("ok", b"text"):
+                raise Violation(["several-idle", "setup"], "a checked-out client could not be used: %s" % desc)
+        released_at = {}
+        for i, cl in enumerate(held):
+            if i:
+                env.clock.advance(case["release_gaps"][i - 1])
+            pool.release(cl)
+            released_at[id(cl.sock)] = env.clock.now
+        socks = {id(cl.sock): cl.sock for cl in held}
+        expired_seen = False
+        for gap in [case["gap"]] + case["follow"]:
+            env.clock.advance(gap)
+            now = env.clock.now
+            mark = len(net.log)
+            n_before = len(net.sockets)
+            out = env.call(c.get, "t")
+            where = "%s; at the call made at +%s s (outcome %r)" % (desc, now - min(released_at.values()) if released_at else 0, c01._short(out))
+            if out != ("ok", b"text"):
+                raise Violation(["several-idle", "result"], "the call did not return the stored value: %s" % where)
+            used = {e[2] for e in net.log[mark:] if e[3] in ("sendall", "recv")}
+            young = [sid for sid, t in released_at.items() if now - t <= idle and not socks[sid].closed]
+            old = [sid for sid, t in released_at.items() if now - t > idle]
+            for sid in old:
+                expired_seen = True
+                if not socks[sid].closed:
+                    raise Violation(["several-idle", "idle-socket-not-closed"], "socket %d has idled %s s (> pool_idle_timeout %s) and is still open after a checkout: %s"
+                                    % (socks[sid].id, now - released_at[sid], idle, where))
+                if socks[sid].id in used:
+                    raise Violation(["several-idle", "idle-socket-reused"], "socket %d idled %s s and was used again: %s" % (socks[sid].id, now - released_at[sid], where))
+            if young and len(net.sockets) != n_before:
+                raise Violation(["several-idle", "healthy-socket-not-reused"], "%d connection(s) idle for less than the timeout, yet a new socket was opened: %s" % (len(young), where))
+            for sid in old:
+                released_at.pop(sid, None)
+            # the connection the call used is idle from now on
+            for s_ in net.sockets:
+                if s_.id in used and not s_.closed:
+                    socks[id(s_)] = s_
+                    released_at[id(s_)] = env.clock.now
+            if len(pool.used):
+                raise Violation(["several-idle", "checked-out-after-call"], "%d connection(s) still checked out: %s" % (len(pool.used), where))
+        c.close()
+        left = [s_.id for s_ in net.sockets if not s_.closed]
+        if left:
+            raise Violation(["several-idle", "open-after-close"], "sockets %r open after close(): %s" % (left, desc))
+    return expired_seen, ["several-idle", "n=%d" % case["n"], "expired" if expired_seen else "none-expired"]
+
+
 PARTS = [
+    Part("several-idle-connections-of-different-ages", "enum", check_several_idle, cases=several_idle_cases, exhaustive=True),
     Part("re-entrant-calls", "enum", check_reentrant, cases=reentrant_cases, exhaustive=True),
     Part("long-lives", "enum", check, cases=soak_cases, shards={"quick": 6, "thorough": 12}),
     Part("fault-and-gap-sweep", "enum", check, cases=sweep_cases, exhaustive=True),
